@@ -163,8 +163,17 @@ def _dedup_collision(pg, st):
 
 
 def _kind_is_rule_name(pg, st):
+    """type names made from a production {Kind} are global: a kind equal to a rule name, or one kind used in two rules"""
     kinds = {a.kind for _, _, alts in pg.rules for a in alts if a.kind}
-    return any(k in pg.rule_names for k in kinds)
+    if any(k in pg.rule_names for k in kinds):
+        return True
+    seen = {}
+    for name, _, alts in pg.rules:
+        for a in alts:
+            if a.kind:
+                if seen.setdefault(a.kind, name) != name:
+                    return True
+    return False
 
 
 def _field_name_collision(pg, st):
